@@ -4,6 +4,7 @@ import ast
 from sa.cfg import cfg_of
 from sa.program import dotted, norm, own_nodes, const_str
 from sa.util import (assignments_to, cfg_node_of, enclosing_loops, guards_at, stmt_text)
+from . import shared
 from .roles import VIEWS, roles
 
 
@@ -87,6 +88,8 @@ def run(ctx):
             f0, x0 = sites[0]
             c.ob("R2", ok, f0, f"synthetic-family:{fam}", f"'{fam}*' events ({len(sites)} construction sites) are private to their exact handler" if ok else
                  f"the engine constructs '{norm(x0)[:50]}' events but the cut-off {sorted(pref)} does not cover '{fam}': a user wildcard would swallow them", x0)
+    # ---- R4 synthetic events (done.* / error.* / after.*) never trigger eventless transitions of their own ----
+    shared.eligible_bucket_rules(ctx, "R4", "always")
     # ---- R3 forbidden (null) transitions stop the upward walk --------------------------------
     ce = p.method("BaseInterpreter", "_collect_eligible_transitions")
     g2 = cfg_of(ce.node)
